@@ -409,8 +409,11 @@ fn gen_knots(rng: &mut Rng, n: usize) -> Vec<f64> {
     let rmax = 50f64.powf(rng.f());
     let hs: Vec<f64> = (0..n - 1).map(|_| rmax.powf(rng.f())).collect();
     let total: f64 = hs.iter().sum();
-    let len = 20.0 * 10f64.powf(-rng.r(0.0, 1.5)) * (1.0 - 1e-12);
-    let x0 = rng.r(-10.0, 10.0 - len);
+    // style 3: a tight cluster of knots next to 0 (total length down to 1e-17: the spacings are far
+    // below machine epsilon in absolute terms and still perfectly resolved relative to the knots)
+    let tiny = style == 3;
+    let len = if tiny { rng.log10(-17.0, -2.0) } else { 20.0 * 10f64.powf(-rng.r(0.0, 1.5)) * (1.0 - 1e-12) };
+    let x0 = if tiny { -len * rng.f() } else { rng.r(-10.0, 10.0 - len) };
     let mut xs = vec![x0];
     for h in &hs {
         let nx = xs.last().unwrap() + h * len / total;
@@ -940,7 +943,7 @@ pub fn meta() -> CheckMeta {
             "equal knots and NaN abscissae are outside the property (premise: strictly increasing knots) and are not exercised".into(),
         ],
         exhaustive: false,
-        stuck_is_violation: false,
+        stuck_is_violation: true,
     }
 }
 
